@@ -313,7 +313,8 @@ pub fn run_check(a: &CheckArgs) -> CheckResult {
             }
         }
         pending = next;
-        if generation > 64 {
+        // a library that crashes on every other world: enough has been seen
+        if generation > 64 || crashes.len() > 48 {
             break;
         }
     }
@@ -566,10 +567,15 @@ pub fn check_main(a: CheckArgs) -> i32 {
     let mut known_hit: BTreeSet<String> = BTreeSet::new();
     let mut confirmed_violations = 0u64;
     // crashes of whole worker processes are C14 material
+    let mut crash_reports = 0;
     for (idx, why) in &res.crashes {
         let line = format!("worker crash at run index {idx} (seed {}): {why}", a.seed.wrapping_add(*idx));
+        lines.push(line.clone());
+        crash_reports += 1;
+        if crash_reports > 3 {
+            continue;
+        }
         println!("{line}");
-        lines.push(line);
         let tr = res.crash_traces.iter().find(|(i, _)| i == idx).map(|x| x.1.clone());
         match tr {
             Some(trace) => {
